@@ -21,7 +21,7 @@
     Proofs: InterDiffThm.v ([difference_correct], [difference_filter],
     [covering_difference_correct], [*_mut_mirrors]), SetOpsExtra.v. *)
 From Coq Require Import List NArith Sorted Bool.
-From PT Require Import Lookup ViewsThm InterDiffThm SetOpsExtra Arena Arena3 ArenaProps.
+From PT Require Import Lookup ViewsThm InterDiffThm SetOpsExtra Arena Arena3 ArenaProps ArenaViews ArenaSetViews.
 From PT.Properties Require Import Common.
 Import ListNotations.
 
@@ -232,6 +232,35 @@ Proof.
   exact (arena_C07_covering_difference pfx L R _ _ _ _ _ _ _ _ _ (laws w fl Hw) amL amR esL esR HL HR EL ER).
 Qed.
 
+(** * ... and at ANY pair of view locations (ArenaSetViews.v): [lL], [lR] are obtained by any sequence
+      of navigation calls (stored, branching and VIRTUAL roots; equal, nested, disjoint positions) on
+      two reachable arenas; [esL], [esR] are what the two views' own iterations yield; the arena
+      iterators run at the two slots, exactly as the Rust constructors do. *)
+Theorem C07_arena_views_difference (amL : Arena.amap pfx L) (amR : Arena.amap pfx R) lL lR esL esR :
+  areach pfx L (peq w) (contains w fl) (is_bit_set w) plen (lcp w fl) pzero (okp w) amL -> areach pfx R (peq w) (contains w fl) (is_bit_set w) plen (lcp w fl) pzero (okp w) amR ->
+  a_vreach pfx L (peq w) (contains w fl) (is_bit_set w) plen (lcp w fl) (okp w) (Arena.tbl amL) lL ->
+  a_vreach pfx R (peq w) (contains w fl) (is_bit_set w) plen (lcp w fl) (okp w) (Arena.tbl amR) lR ->
+  a_v_iter pfx L (Arena.tbl amL) lL = Arena.Ok esL -> a_v_iter pfx R (Arena.tbl amR) lR = Arena.Ok esR ->
+  exists out outm,
+    Arena3.a_difference pfx L R (contains w fl) (is_bit_set w) plen (mcmp w) (Arena.tbl amL) (Arena.tbl amR) (Arena3.loc_idx lL) (Arena3.loc_idx lR) = Arena.Ok out /\
+    InterDiffThm.diff_spec pfx L R (kbits w) esL esR out /\
+    map fst out = filter (fun e => negb (existsb (fun e' => Bits.beq (kbits w (fst e')) (kbits w (fst e))) esR)) esL /\
+    Arena3.a_difference_mut pfx L R (contains w fl) (is_bit_set w) plen (mcmp w) (Arena.tbl amL) (Arena.tbl amR) (Arena3.loc_idx lL) (Arena3.loc_idx lR) = Arena.Ok outm /\
+    out = map (fun '(p, (_, l), ann) => (p, l, ann)) outm.
+Proof. exact (arena_views_difference pfx L R _ _ _ _ _ _ _ _ _ (laws w fl Hw) amL amR lL lR esL esR). Qed.
+
+Theorem C07_arena_views_covering_difference (amL : Arena.amap pfx L) (amR : Arena.amap pfx R) lL lR esL esR :
+  areach pfx L (peq w) (contains w fl) (is_bit_set w) plen (lcp w fl) pzero (okp w) amL -> areach pfx R (peq w) (contains w fl) (is_bit_set w) plen (lcp w fl) pzero (okp w) amR ->
+  a_vreach pfx L (peq w) (contains w fl) (is_bit_set w) plen (lcp w fl) (okp w) (Arena.tbl amL) lL ->
+  a_vreach pfx R (peq w) (contains w fl) (is_bit_set w) plen (lcp w fl) (okp w) (Arena.tbl amR) lR ->
+  a_v_iter pfx L (Arena.tbl amL) lL = Arena.Ok esL -> a_v_iter pfx R (Arena.tbl amR) lR = Arena.Ok esR ->
+  exists out outm,
+    Arena3.a_covering_difference pfx L R (contains w fl) (is_bit_set w) plen (mcmp w) (Arena.tbl amL) (Arena.tbl amR) (Arena3.loc_idx lL) (Arena3.loc_idx lR) = Arena.Ok out /\
+    InterDiffThm.cdiff_spec pfx L R (kbits w) esL esR out /\
+    Arena3.a_covering_difference_mut pfx L R (contains w fl) (is_bit_set w) plen (mcmp w) (Arena.tbl amL) (Arena.tbl amR) (Arena3.loc_idx lL) (Arena3.loc_idx lR) = Arena.Ok outm /\
+    out = map (fun '(p, (_, l)) => (p, l)) outm.
+Proof. exact (arena_views_covering_difference pfx L R _ _ _ _ _ _ _ _ _ (laws w fl Hw) amL amR lL lR esL esR). Qed.
+
 End C07.
 
 (** Non-vacuity (w = 8).  Map A = {00/2 ↦ 1, 01/2 ↦ 2, 1/1 ↦ 3, 110/3 ↦ 4} over [nat] (node 0/1
@@ -289,3 +318,5 @@ Print Assumptions C07_views.
 Print Assumptions C07_reachable.
 Print Assumptions C07_arena_difference.
 Print Assumptions C07_arena_covering_difference.
+Print Assumptions C07_arena_views_difference.
+Print Assumptions C07_arena_views_covering_difference.
